@@ -231,6 +231,8 @@ def call_builtin(ex, st, name, args, kwargs, node):
                 ex.inlined.add(name)
                 env = ex.bind_params(st, fi, None, None, args, kwargs)
                 return ex.eval_in(st, expr, env, fi.module, None)
+            if fi.cls is None:
+                return ex.inline_call(st, fi, None, args, kwargs)
         raise Unsupported(f"call to {name} without contract")
     if short == "len" and name == "len":
         v = args[0]
@@ -314,6 +316,11 @@ def call_builtin(ex, st, name, args, kwargs, node):
         if isinstance(v, VStr):
             return v
         return VStr(z3.Int(fresh_name("str")))
+    if name == "format" and len(args) == 2 and isinstance(args[0], (VInt, VBool)) and isinstance(args[1], VStr) \
+            and args[1].lit is not None:
+        from .values import str_code
+        ex.lib_used.add("f-string of one int: injective uninterpreted function of (format, value)")
+        return VStr(fmt_int(z3.IntVal(str_code(args[1].lit)), as_int(args[0])))
     if name == "abs":
         x = as_int(args[0])
         return VInt(z3.If(x >= 0, x, -x))
